@@ -1006,6 +1006,11 @@ func exprString(x Expr) string {
 // cellByName finds the live local variable cell with the given source name.
 func (fr *Frame) cellByName(name string, st *State) (ssa.Value, types.Type) {
 	var best *ssa.Alloc
+	if name == "rangeindex" && fr.curRangeIdx != nil {
+		if _, ok := st.cells[fr.curRangeIdx]; ok {
+			return fr.curRangeIdx, fr.curRangeIdx.Type().(*types.Pointer).Elem()
+		}
+	}
 	for _, a := range fr.allocsByName[name] {
 		if _, ok := st.cells[a]; !ok {
 			continue
